@@ -21,6 +21,7 @@ func (r *Decoder) produceBlankNode(r0 cursorio.DecodedRune) (*tokenBlankNode, er
 	}
 
 	var uncommitted cursorio.DecodedRuneList
+	var startOffset *cursorio.TextOffset
 
 	{
 		r1, err := r.buf.NextRune()
@@ -41,6 +42,8 @@ func (r *Decoder) produceBlankNode(r0 cursorio.DecodedRune) (*tokenBlankNode, er
 		default:
 			return nil, grammar.R_BLANK_NODE_LABEL.Err(r.newOffsetError(cursorioutil.UnexpectedRuneError{Rune: r2.Rune}, append(uncommitted, r0, r1).AsDecodedRunes(), r2.AsDecodedRunes()))
 		}
+
+		startOffset = r.getTextOffset()
 
 		r.commit(cursorio.NewDecodedRunes(r0, r1))
 
@@ -84,8 +87,17 @@ DONE:
 		))
 	}
 
+	// the token's range starts at the "_:" committed above
+	offsets := r.commitForTextOffsetRange(uncommitted.AsDecodedRunes())
+	if offsets != nil {
+		offsets = &cursorio.TextOffsetRange{
+			From:  *startOffset,
+			Until: offsets.Until,
+		}
+	}
+
 	token := &tokenBlankNode{
-		Offsets: r.commitForTextOffsetRange(uncommitted.AsDecodedRunes()),
+		Offsets: offsets,
 		Decoded: uncommitted.AsDecodedRunes().String(),
 	}
 
